@@ -144,7 +144,11 @@ func blockStmt(p *parser) {
 
 	var blockName string
 	if p.match(tSTR) {
-		blockName, _ = strconv.Unquote(p.prev.val)
+		var err error
+		blockName, err = strconv.Unquote(p.prev.val)
+		if err != nil {
+			p.error("invalid string literal")
+		}
 	}
 
 	p.consume(tLCURLY, "expected '{'")
